@@ -162,6 +162,7 @@ theorem spec_saveto_complete (decl : Bool) (root : Str) : ∀ (rows : List Cells
     simp only [Spec.saveto] at h
     cases hk : Spec.rowKind ((Rows.get r "type").getD []) with
     | end_ => simp only [hk] at h; simpa [List.filter_cons, hk] using ih _ _ h
+    | meta_ => simp only [hk] at h; simpa [List.filter_cons, hk] using ih _ _ h
     | beginGroup =>
       simp only [hk] at h
       by_cases ht : truthy (Spec.savetoCell r) = true
@@ -197,6 +198,7 @@ theorem spec_saveto_valid (decl : Bool) (root : Str) : ∀ (rows : List Cells) (
     simp only [Spec.saveto] at h
     cases hk : Spec.rowKind ((Rows.get r "type").getD []) with
     | end_ => simp only [hk] at h; exact ih _ _ h
+    | meta_ => simp only [hk] at h; exact ih _ _ h
     | beginGroup => simp only [hk] at h; split at h; · cases h
                     · exact ih _ _ h
     | beginRepeat => simp only [hk] at h; split at h; · cases h
@@ -231,7 +233,7 @@ example : ∃ m, walk true "data".toList 2 []
     repeat. -/
 theorem saveto_in_repeat_or_on_group_rejected (decl : Bool) (root : Str) (n : Nat) (st : List Frame)
     (r : Cells) (rs : List Cells) (t name : Str)
-    (ht : Rows.get r "type" = some t) (he : Rows.matchControl "end" false t = none)
+    (ht : Rows.get r "type" = some t) (he : Rows.matchControl "end" false t = none) (haud : t ≠ auditType)
     (hn : Rows.get r "name" = some name) (hcell : truthy (lookup savetoKey r) = true)
     (hbad : inRepeat st = true ∨ ∃ c, Rows.matchControl "begin" true t = some c) :
     ∃ m, walk decl root n st (r :: rs) = .error (.msg m) := by
@@ -240,7 +242,7 @@ theorem saveto_in_repeat_or_on_group_rejected (decl : Bool) (root : Str) (n : Na
     · simp [savetoPasses, hcell, h]
     · simp [savetoPasses, hcell, hc]
   obtain ⟨m, hm⟩ := (saveto_checks decl n st r t).2 hp
-  exact ⟨m, by simp only [walk, ht, he, hn, hm]⟩
+  exact ⟨m, by simp only [walk, ht, he, haud, if_false, hn, hm]⟩
 
 example : ∃ m, walk true "data".toList 2 []
     [[("type".toList, "begin repeat".toList), ("name".toList, "r".toList)],
@@ -281,11 +283,11 @@ theorem xmlns_with_entity (namespaces : Option Str) :
     exists; when it exists the `entities` prefix is declared with the entities URI (the appended declaration
     survives whatever the user's namespaces string contains); when it does not exist the prefix is declared
     only if the user's own namespaces string declares it. -/
-theorem namespace_iff_entity (root : Str) (sub : Str → Str) (namespaces : Option Str) (entities survey : List Cells) (o : Out)
-    (h : convert root sub namespaces entities survey = .ok o) :
+theorem namespace_iff_entity (root : Str) (sub : Str → Str) (settings : Cells) (entities survey : List Cells) (o : Out)
+    (h : convert root sub settings entities survey = .ok o) :
     (o.entity.isSome ↔ entities ≠ []) ∧ (o.version.isSome ↔ o.entity.isSome) ∧
     (o.entity.isSome → o.xmlns = some Spec.entitiesNs ∧ o.version = some (Spec.versionAttr, Gen.entitiesOfflineVersion)) ∧
-    (o.entity = none → o.xmlns = userEntitiesNs namespaces) := by
+    (o.entity = none → o.xmlns = userEntitiesNs (Rows.get settings "namespaces")) := by
   unfold convert at h
   cases entities with
   | nil =>
@@ -306,28 +308,28 @@ theorem namespace_iff_entity (root : Str) (sub : Str → Str) (namespaces : Opti
 
 /-- corollary: unless the user's own `namespaces` cell declares the prefix `entities`, the entities namespace
     is declared exactly when an entity is declared -/
-theorem namespace_iff_entity_user (root : Str) (sub : Str → Str) (namespaces : Option Str) (entities survey : List Cells) (o : Out)
-    (huser : lookup entitiesPrefix (nsExtra namespaces false) = none)
-    (h : convert root sub namespaces entities survey = .ok o) : (o.xmlns.isSome ↔ o.entity.isSome) := by
-  obtain ⟨_, _, h3, h4⟩ := namespace_iff_entity root sub namespaces entities survey o h
+theorem namespace_iff_entity_user (root : Str) (sub : Str → Str) (settings : Cells) (entities survey : List Cells) (o : Out)
+    (huser : lookup entitiesPrefix (nsExtra (Rows.get settings "namespaces") false) = none)
+    (h : convert root sub settings entities survey = .ok o) : (o.xmlns.isSome ↔ o.entity.isSome) := by
+  obtain ⟨_, _, h3, h4⟩ := namespace_iff_entity root sub settings entities survey o h
   cases he : o.entity with
   | none => simp [h4 he, userEntitiesNs, huser]
   | some e => simp [(h3 (by simp [he])).1]
 
-example : (okVal (convert "data".toList id (some "ex=\"http://example.com/x\"".toList) []
+example : (okVal (convert "data".toList id [("namespaces".toList, "ex=\"http://example.com/x\"".toList)] []
       [[("type".toList, "text".toList), ("name".toList, "q".toList)]])).map
     (fun o => (o.entity.isSome, o.xmlns.isSome, o.version.isSome)) = some (false, false, false) := by decide
-example : (okVal (convert "data".toList id (some "ex=\"http://example.com/x\"".toList)
+example : (okVal (convert "data".toList id [("namespaces".toList, "ex=\"http://example.com/x\"".toList)]
       [[("dataset".toList, "t".toList), ("label".toList, "x".toList)]]
       [[("type".toList, "text".toList), ("name".toList, "q".toList)]])).map
     (fun o => (o.entity.isSome, o.xmlns, o.version.isSome)) = some (true, some Spec.entitiesNs, true) := by decide
 
 /-- what happens when the user's own `namespaces` cell declares the prefix `entities`: without an entity the
     root carries the user's URI; with an entity the appended declaration wins -/
-example : (okVal (convert "data".toList id (some "entities=\"http://example.com/mine\"".toList) []
+example : (okVal (convert "data".toList id [("namespaces".toList, "entities=\"http://example.com/mine\"".toList)] []
       [[("type".toList, "text".toList), ("name".toList, "q".toList)]])).map (·.xmlns) =
     some (some ("entities".toList, "http://example.com/mine".toList)) := by decide
-example : (okVal (convert "data".toList id (some "entities=\"http://example.com/mine\"".toList)
+example : (okVal (convert "data".toList id [("namespaces".toList, "entities=\"http://example.com/mine\"".toList)]
       [[("dataset".toList, "t".toList), ("label".toList, "x".toList)]]
       [[("type".toList, "text".toList), ("name".toList, "q".toList)]])).map (·.xmlns) =
     some (some Spec.entitiesNs) := by decide
@@ -389,17 +391,86 @@ theorem declaration_agrees (root : Str) (sub : Str → Str) (row : Cells) :
     unfold Spec.entityRow
     rw [if_pos this]
 
+/-! ## the meta block -/
+
+/-- the three facts about sheet and settings that shape the meta block, read as C04's `Rows.metaKids` reads them -/
+def metaCfg (settings : Cells) (survey : List Cells) : Spec.MetaCfg :=
+  { audit := survey.any fun r => Rows.get r "type" = some "audit".toList &&
+      !(match Rows.get r "disabled" with | some v => Rows.yesNoTrue v | none => false)
+    omitInstanceID := match Rows.get settings "omit_instanceID" with | some v => Rows.yesNoTrue v | none => false
+    instanceName := Rows.has settings "instance_name" }
+
+/-- **meta_children_table.**  For every sheet and settings row, i.e. for each of the eight combinations of
+    audit row / `omit_instanceID` / `instance_name`: the children of the generated meta group are `audit`,
+    `instanceID`, `instanceName` (each iff prescribed, in this order — `Rows.metaKids`, C04) followed by the entity
+    declaration iff an entity is declared.  In particular the declaration does not depend on the other three. -/
+theorem meta_children_table (settings : Cells) (survey : List Cells) (e : Bool) :
+    metaChildren settings survey e =
+      Spec.metaKids (metaCfg settings survey).audit (metaCfg settings survey).omitInstanceID
+        (metaCfg settings survey).instanceName e := by
+  unfold metaChildren Rows.metaKids Spec.metaKids metaCfg
+  rw [entity_name_eq]
+  generalize (survey.any fun r => Rows.get r "type" = some "audit".toList &&
+      !(match Rows.get r "disabled" with | some v => Rows.yesNoTrue v | none => false)) = a
+  generalize Rows.has settings "instance_name" = c
+  cases hget : Rows.get settings "omit_instanceID" with
+  | none => cases a <;> cases c <;> cases e <;> rfl
+  | some v =>
+    simp only
+    rcases Bool.eq_false_or_eq_true (Rows.yesNoTrue v) with hb | hb <;> simp only [hb] <;>
+      cases a <;> cases c <;> cases e <;> rfl
+
+/-- **entity_in_meta.**  In every converted form the declaration is a child of `meta` iff an entity is declared,
+    and then it is the *last* child, whatever the settings (omit_instanceID, instance_name) and audit rows are;
+    the meta group therefore exists whenever an entity is declared. -/
+theorem entity_in_meta (root : Str) (sub : Str → Str) (settings : Cells) (entities survey : List Cells) (o : Out)
+    (h : convert root sub settings entities survey = .ok o) :
+    (o.entity.isSome → o.metaKids.getLast? = some (Spec.S "entity") ∧
+        o.metaKids.dropLast = (Rows.metaKids survey settings).map (·.name)) ∧
+    (o.entity = none → o.metaKids = (Rows.metaKids survey settings).map (·.name)) := by
+  unfold convert at h
+  cases entities with
+  | nil =>
+    simp only at h
+    split at h
+    · cases h
+    · cases h; simp [metaChildren]
+  | cons row rest =>
+    simp only at h
+    split at h
+    · cases h
+    · split at h
+      · cases h
+      · split at h
+        · cases h
+        · cases h
+          simp [metaChildren, entity_name_eq]
+
+example : (okVal (convert "data".toList id [("omit_instanceID".toList, "yes".toList)]
+      [[("dataset".toList, "t".toList), ("label".toList, "x".toList)]]
+      [[("type".toList, "text".toList), ("name".toList, "q".toList)]])).map (·.metaKids) =
+    some ["entity".toList] := by decide
+example : (okVal (convert "data".toList id [("instance_name".toList, "x".toList)]
+      [[("dataset".toList, "t".toList), ("label".toList, "x".toList)]]
+      [[("type".toList, "audit".toList), ("name".toList, "audit".toList)],
+       [("type".toList, "text".toList), ("name".toList, "q".toList)]])).map (·.metaKids) =
+    some ["audit".toList, "instanceID".toList, "instanceName".toList, "entity".toList] := by decide
+example : (okVal (convert "data".toList id [("omit_instanceID".toList, "true".toList)] []
+      [[("type".toList, "text".toList), ("name".toList, "q".toList)]])).map (·.metaKids) = some [] := by decide
+
 /-- **convert_eq_spec.**  The whole mechanism (entities sheet → declaration → nodes; survey rows → saveto
     binds; namespace and version) equals the documented specification on every input the model answers, for
     *every* value of the settings `namespaces` cell (no assumption about it: with an entity the entities
     namespace is declared whatever the cell says; without one the root carries exactly what the cell itself
     declares for that prefix, `userEntitiesNs`): what it converts is exactly what the spec demands, and what it
     rejects the spec rejects. -/
-theorem convert_eq_spec (root : Str) (sub : Str → Str) (namespaces : Option Str) (entities survey : List Cells) :
-    match convert root sub namespaces entities survey with
-    | .ok o => Spec.form root sub Gen.entitiesOfflineVersion (userEntitiesNs namespaces) entities survey = some o
+theorem convert_eq_spec (root : Str) (sub : Str → Str) (settings : Cells) (entities survey : List Cells) :
+    match convert root sub settings entities survey with
+    | .ok o => Spec.form root sub Gen.entitiesOfflineVersion (userEntitiesNs (Rows.get settings "namespaces"))
+        (metaCfg settings survey) entities survey = some o
     | .error (.unsupported _) => True
-    | .error _ => Spec.form root sub Gen.entitiesOfflineVersion (userEntitiesNs namespaces) entities survey = none := by
+    | .error _ => Spec.form root sub Gen.entitiesOfflineVersion (userEntitiesNs (Rows.get settings "namespaces"))
+        (metaCfg settings survey) entities survey = none := by
   unfold convert
   cases entities with
   | nil =>
@@ -409,7 +480,7 @@ theorem convert_eq_spec (root : Str) (sub : Str → Str) (namespaces : Option St
     | ok sv =>
       rw [hres] at hw
       simp only [agrees, frames, List.map_nil] at hw
-      simp [Spec.form, hw]
+      simp [Spec.form, hw, meta_children_table]
     | error e =>
       rw [hres] at hw
       cases e with
@@ -457,9 +528,9 @@ theorem convert_eq_spec (root : Str) (sub : Str → Str) (namespaces : Option St
           simp only [agrees, frames, List.map_nil] at hw
           simp only [hpath, hns]
           simp only [entityPath] at hspec
-          simp [Spec.form, hspec, hw, features_on, version_attr_eq, xmlns_with_entity]
+          simp [Spec.form, hspec, hw, features_on, version_attr_eq, xmlns_with_entity, meta_children_table]
 
-example : (okVal (convert "data".toList id none [[("dataset".toList, "trees".toList), ("label".toList, "x".toList)]]
+example : (okVal (convert "data".toList id [] [[("dataset".toList, "trees".toList), ("label".toList, "x".toList)]]
     [[("type".toList, "text".toList), ("name".toList, "q".toList), ("bind::entities:saveto".toList, "p".toList)]])).map
     (·.saveto) = some [("/data/q".toList, "p".toList)] := by decide
 
